@@ -51,6 +51,10 @@ func stressMain(args []string) {
 		wakeScenario(args[1:])
 		return
 	}
+	if len(args) > 0 && args[0] == "extreme" {
+		extremeScenario(args[1:])
+		return
+	}
 	geti := func(i, def int) int {
 		if len(args) > i {
 			if v, err := strconv.Atoi(args[i]); err == nil {
@@ -396,4 +400,119 @@ func wakeScenario(args []string) {
 		}
 	}
 	fmt.Printf("ok scenario=wake consumers=%d rounds=%d\n", consumers, rounds)
+}
+
+// extremeScenario is the directed C08 scenario with SATURATING delays in REAL time:
+//
+//	c08-dq-stress extreme <seed> [rounds]
+//
+// elements: Z = zero time.Time deadline (Delay() saturates at math.MinInt64: expired "since ever"),
+// N = deadline in the year 9999 (Delay() saturates at math.MaxInt64: never expires), X = overdue by
+// 5-25 ms, S = due in 20-30 ms.  Both elements of a case are enqueued (in both orders) BEFORE the
+// Dequeue starts, so only facts that scheduling noise cannot falsify are asserted:
+//   min-first   {Z, S}: the first Dequeue returns Z (S expires later)                  -> order
+//   min-first   {Z, X}: the first Dequeue returns Z (X expired later than Z)           -> order
+//   never-hides {N, X}: Dequeue returns X within 3 s although N is in the queue        -> late-wakeup
+//   never-hides {N, S}: Dequeue returns S within 3 s after its expiry                  -> late-wakeup
+//   every returned element has Delay() <= 0                                           -> early
+func extremeScenario(args []string) {
+	geti := func(i, def int) int {
+		if len(args) > i {
+			if v, err := strconv.Atoi(args[i]); err == nil {
+				return v
+			}
+		}
+		return def
+	}
+	seed := int64(geti(0, 1))
+	rounds := geti(1, 2)
+	const bound = 3 * time.Second
+	verifhook.SetMode(verifhook.Chaos)
+	r := rand.New(rand.NewSource(seed*131 + 7))
+	never := time.Date(9999, 1, 1, 0, 0, 0, 0, time.UTC)
+	name := map[int]string{1: "Z(zero deadline, Delay=MinInt64)", 2: "N(year 9999, Delay=MaxInt64)", 3: "X(overdue)", 4: "S(due in 20-30 ms)"}
+	mk := func(id int) elem {
+		switch id {
+		case 1:
+			return elem{id: 1}
+		case 2:
+			return elem{id: 2, deadline: never}
+		case 3:
+			return elem{id: 3, deadline: time.Now().Add(-time.Duration(5+r.Intn(21)) * time.Millisecond)}
+		}
+		return elem{id: 4, deadline: time.Now().Add(time.Duration(20+r.Intn(11)) * time.Millisecond)}
+	}
+	dump := func() {
+		buf := make([]byte, 1<<20)
+		n := runtime.Stack(buf, true)
+		fmt.Fprintf(os.Stderr, "%s\n", buf[:n])
+	}
+	type tc struct {
+		kind        string
+		first, then int // enqueue order
+		want        int // id the first Dequeue must return
+	}
+	var cases []tc
+	for _, p := range [][3]int{{1, 4, 1}, {1, 3, 1}, {2, 3, 3}, {2, 4, 4}} {
+		k := "min-first"
+		if p[0] == 2 {
+			k = "never-hides"
+		}
+		cases = append(cases, tc{k, p[0], p[1], p[2]}, tc{k, p[1], p[0], p[2]})
+	}
+	for round := 0; round < rounds; round++ {
+		for _, c := range cases {
+			for _, capacity := range []int{0, 2} {
+				q := queue.NewDelayQueue[elem](capacity)
+				a, b := mk(c.first), mk(c.then)
+				for _, e := range []elem{a, b} {
+					if err := q.Enqueue(context.Background(), e); err != nil {
+						fmt.Printf("VIOLATION crash: Enqueue failed: %v\n", err)
+						return
+					}
+				}
+				want := a
+				other := b
+				_ = other
+				if b.id == c.want {
+					want, other = b, a
+				}
+				ctx, cancel := context.WithTimeout(context.Background(), bound+time.Second)
+				t0 := time.Now()
+				v, err := q.Dequeue(ctx)
+				var delay time.Duration
+				if err == nil {
+					delay = v.Delay()
+				}
+				t1 := time.Now()
+				cancel()
+				where := fmt.Sprintf("scenario extreme/%s seed=%d round=%d capacity=%d enqueue order %s then %s", c.kind, seed, round, capacity, name[a.id], name[b.id])
+				due := t0
+				if want.id == 4 && want.deadline.After(due) {
+					due = want.deadline
+				}
+				switch {
+				case err != nil:
+					fmt.Printf("VIOLATION late-wakeup: %s: Dequeue returned %v after %v although %s could be delivered %v ago (Len=%d)\n",
+						where, err, t1.Sub(t0).Round(time.Millisecond), name[want.id], t1.Sub(due).Round(time.Millisecond), q.VerifLen())
+					dump()
+					return
+				case delay > 0:
+					fmt.Printf("VIOLATION early: %s: %s returned with Delay() = %v\n", where, name[v.id], delay)
+					return
+				case v.id != want.id && c.kind == "min-first":
+					fmt.Printf("VIOLATION order: %s: %s returned (after %v) while %s, enqueued before the call started and expired since ever, is still in the queue\n",
+						where, name[v.id], t1.Sub(t0).Round(time.Millisecond), name[want.id])
+					return
+				case v.id != want.id:
+					fmt.Printf("VIOLATION early: %s: the never-expiring element was returned\n", where)
+					return
+				case t1.Sub(due) > bound:
+					fmt.Printf("VIOLATION late-wakeup: %s: %s delivered %v after it could be\n", where, name[want.id], t1.Sub(due).Round(time.Millisecond))
+					return
+				}
+			}
+		}
+	}
+	fmt.Printf("ok scenario=extreme rounds=%d cases=%d\n", rounds, len(cases)*2)
 }
